@@ -178,6 +178,8 @@ def _numcmd(rng, sc, nvars=None, types=(0, 1, 2), accs=(0, 0, 0, 1, 2), name=b"+
         init = bytes(rng.randrange(256) for _ in range(ln))
         if t == 4:
             k = max(0, rng.randint(0, size - 1))
+            if rng.random() < 0.2:
+                k = size          # the string fills its variable completely: no terminator inside data_size (legal for reading)
             if rng.random() < 0.35:
                 init = bytes(rng.choice([x for x in range(1, 256) if x != 13]) for _ in range(k)) + bytes(ln)
             else:
@@ -431,6 +433,10 @@ def f_wide(rng, sid):
                 drain(sc, n + 4000)
         sc.inp(b"AT+V=" + b"0" * (2 * lim) + b"7\n")
         drain(sc, 2 * lim + 4000)
+        # a numeric argument longer than the counter's range that still fits the buffer: its value is what the digits say
+        if lim + 8 < big - 1:
+            sc.inp(b"AT+V=" + b"0" * (lim - 1) + rng.choice([b"12", b"37", b"255", b"100"]) + b"\n")
+            drain(sc, lim + 4000)
         sc.inp(b"AT+W=ok\n")
         drain(sc, 4000)
         return sc
